@@ -475,7 +475,7 @@ impl Part for Search {
         check_search(c)
     }
     fn floors(&self) -> Vec<(&'static str, f64)> {
-        vec![("search-up", 0.15), ("search-down", 0.15), ("bracket-verified", 0.5)]
+        vec![("search-up", 0.05), ("search-down", 0.04), ("bracket-verified", 0.25)]
     }
 }
 
